@@ -47,8 +47,8 @@ theorem encode_decode_duration (s : St) (fuzz : Bool) (fsz out : Int) (oe : NatO
   obtain ⟨P, hv, hf, hs, hz, hdur, hlen, hlo, hhi⟩ := Enc.encoder_packet s fuzz fsz out oe he hok frames hfl
   have hd := decode_same_frames s.fs fsz hfs P P hv hv rfl rfl hdur (by rw [hf]; exact hfb) hz od hod r hinv hlog
     pcm frame_size sc hfit hbuf hroom
-  show ((pktBytes _ frames _).length : Int) = _ ∧ _
-  rw [← hs]
+  have e : bs = FramingSpec.serialize false P := hs.symm
+  rw [e]
   exact ⟨⟨hlen, hlo, hhi⟩, hd.1, hd.2.1, hd.2.2.2⟩
 
 /-- **encode_decode_duration_padded.**  The same after `opus_packet_pad` to ANY `new_len ≥ ret`: padding
@@ -70,8 +70,8 @@ theorem encode_decode_duration_padded (s : St) (fuzz : Bool) (fsz out : Int) (oe
   obtain ⟨q, hvq, hpad, hql, hqf, hqt, hqz⟩ := pad_valid P hv hz newLen (by rw [hlen]; exact hnew)
   have hd := decode_same_frames s.fs fsz hfs P q hv hvq hqf hqt hdur (by rw [hf]; exact hfb) hqz od hod r hinv hlog
     pcm frame_size sc hfit hbuf hroom
-  show ∃ y, Repack.packetPad (pktBytes _ frames _) newLen = .ok y ∧ _
-  rw [← hs]
+  have e : pktBytes res.pkt.hdr frames res.pkt.size = FramingSpec.serialize false P := hs.symm
+  rw [e]
   exact ⟨_, hpad, hql, hd.1, hd.2.1⟩
 
 /-- **encode_decode_duration_unpadded.**  … and after `opus_packet_unpad`: it succeeds, the result is
@@ -92,10 +92,11 @@ theorem encode_decode_duration_unpadded (s : St) (fuzz : Bool) (fsz out : Int) (
   obtain ⟨q, hvq, hun, hql, hqf, hqt, hqz⟩ := unpad_valid P hv
   have hd := decode_same_frames s.fs fsz hfs P q hv hvq hqf hqt hdur (by rw [hf]; exact hfb) hqz od hod r hinv hlog
     pcm frame_size sc hfit hbuf hroom
-  show ∃ y, Repack.packetUnpad (pktBytes _ frames _) = .ok y ∧ _
-  rw [← hs]
+  have e : pktBytes res.pkt.hdr frames res.pkt.size = FramingSpec.serialize false P := hs.symm
+  rw [e]
   refine ⟨_, hun, ?_, hd.1, hd.2.1⟩
-  rw [← hlen]; exact_mod_cast hql
+  have : (res.ret : Int) = ((FramingSpec.serialize false P).length : Int) := hlen.symm
+  rw [this]; exact Int.ofNat_le.mpr hql
 
 /-! ### Non-vacuity -/
 
@@ -106,13 +107,10 @@ example : entryCheck OpusProps.C02.exSt 960 4000 = none ∧
       { tocCfg := 252, lens := [159], size := 160, hdr := [252] } ∧
     (encodeNative OpusProps.C02.exSt false 960 4000 (OpusProps.C02.exOr 159)).ret = 160 := by decide +kernel
 
-/-- 60 ms SILK wideband, 16 kHz mono, 64 kb/s CBR: one 141-byte frame padded to 480 bytes — a code-3
+/-- 60 ms SILK wideband (forced SILK), 16 kHz mono, 64 kb/s CBR: one 141-byte frame padded to 480 bytes — a code-3
     packet (`5B 41 FF 51`: TOC config 11 + code 3, one frame + padding flag, 255+81 → 335 padding bytes). -/
 def exSilkSt : St :=
-  { OpusProps.C02.exSt with fs := 16000, channels := 1, streamChannels := 1, prevChannels := 1, userForcedMode := 1000,
-                            userBandwidth := 1103, userBitrate := 24000, bitrateBps := 24000, mode := 1000,
-                            prevMode := 1000, bandwidth := 1103, autoBandwidth := 1103, prevFramesize := 960,
-                            complexity := 5 }
+  { OpusProps.C02.exSt with fs := 16000, channels := 1, streamChannels := 1, prevChannels := 1, userForcedMode := 1000 }
 def exSilkFr (n : Int) : FrameOr :=
   { OpusProps.C02.exFr 0 with nBytes := n, isr := 16000, tellA := 8 * n, tellB := 8 * n, tellC := 8 * n, tellD := 8 * n,
                               tellE := 8 * n, silkBitRateIn := 24000 }
@@ -129,6 +127,22 @@ example : stOk exSilkSt = true ∧ entryCheck exSilkSt 960 4000 = none ∧
 example : ∃ st, init 48000 2 = some st ∧ DecInv st ∧ OracleOk exOracle ∧
     (960 : Int) * st.Fs / 16000 = 2880 ∧ (960 : Int) * st.Fs / 48000 = 960 :=
   ⟨_, rfl, init_inv (fs := 48000) (ch := 2) rfl, exOracle_ok, by decide, by decide⟩
+/-- all hypotheses together: the 20 ms CELT packet (any 159 frame bytes, here all 7) decoded by a fresh
+    48 kHz stereo decoder into a 960-sample stereo buffer returns 960; by a fresh 16 kHz mono decoder, 320. -/
+example : ∀ st, init 48000 2 = some st →
+    (decodeNative exOracle (some (pktBytes [252] [List.replicate 159 7] 160)) (pktBytes [252] [List.replicate 159 7] 160).length
+        ⟨.pcm, 0, 1920⟩ 960 0 false false { st := st, k := 0, log := [] }).ret = .ret 960 := by
+  intro st hst
+  have h := encode_decode_duration OpusProps.C02.exSt false 960 4000 (OpusProps.C02.exOr 159) (by unfold FsOk; decide)
+    (by decide +kernel) (by decide +kernel) [List.replicate 159 7] (by decide +kernel) (by decide +kernel)
+    exOracle exOracle_ok { st := st, k := 0, log := [] } (init_inv hst) rfl ⟨.pcm, 0, 1920⟩ 960 false
+    (by cases hst; decide) rfl (by cases hst; decide)
+  have hp : (encodeNative OpusProps.C02.exSt false 960 4000 (OpusProps.C02.exOr 159)).pkt =
+      { tocCfg := 252, lens := [159], size := 160, hdr := [252] } := by decide +kernel
+  simp only [hp] at h
+  have hv : (960 : Int) * st.Fs / OpusProps.C02.exSt.fs = 960 := by cases hst; decide
+  rw [hv] at h
+  exact h.2.1
 example : FsOk OpusProps.C02.exSt.fs ∧ FsOk exSilkSt.fs := ⟨by unfold FsOk; decide, by unfold FsOk; decide⟩
 /-- the padded 60 ms packet parses to one 141-byte frame, 60 ms, and padding to 600 bytes keeps that -/
 example : Framing.parseImpl false (pktBytes [91, 65, 255, 81] [List.replicate 141 7] 480) =
